@@ -397,6 +397,13 @@ theorem ackranges_unit_test_scenario :
 theorem ackranges_new_range_is_lowest_scenario :
     insertPn ⟨some 3, [⟨2, 2⟩, ⟨4, 4⟩, ⟨6, 6⟩]⟩ 0 = (⟨some 3, [⟨2, 2⟩, ⟨4, 4⟩, ⟨6, 6⟩]⟩, .rangeInsertionFailed 0 0) := by decide
 
+/-- why `Inv` matters: `Ranges` derefs mutably to the inner `IntervalSet`, so `set_limit` can leave MORE
+    intervals than the limit; then the re-insert after `pop_min` fails too — `debug_assert!` in debug
+    builds, and in release builds `RangeInsertionFailed` although the lowest range WAS dropped.
+    (Unreachable from `Ranges::new` + the operations above: `ackranges_insert_inv`.) -/
+theorem ackranges_debug_assert_needs_broken_invariant :
+    insertPn ⟨some 1, [⟨0, 0⟩, ⟨2, 2⟩, ⟨4, 4⟩]⟩ 10 = (⟨some 1, [⟨2, 2⟩, ⟨4, 4⟩]⟩, .debugAssert) := by decide
+
 /-- a full set still merges: no eviction when the new range touches a stored one -/
 example : insertRange ⟨some 3, [⟨2, 2⟩, ⟨4, 4⟩, ⟨6, 6⟩]⟩ 3 3 = (⟨some 3, [⟨2, 4⟩, ⟨6, 6⟩]⟩, .ok) := by decide
 
